@@ -263,7 +263,9 @@ var c19edit = newChk("C19", "parsed-set-edits",
 		}
 		rec.Class(fmt.Sprintf("edit kind %d", c.Kind))
 		if n > 0 {
-			rec.NonTrivial(obs.HashJSON(c), func() any { return map[string]any{"wire": hx(clipb(c.Wire)), "parsed": orig, "kind": c.Kind, "idx": idx, "name": c.Name} })
+			rec.NonTrivial(obs.HashJSON(c), func() any {
+				return map[string]any{"wire": hx(clipb(c.Wire)), "parsed": orig, "kind": c.Kind, "idx": idx, "name": c.Name}
+			})
 		}
 		return nil
 	})
